@@ -21,6 +21,14 @@ Theorem C06_src_sector_fill_area_is_model : forall st s, 0 <= Sector_diameter s 
   src_Sector_to_circle (src_fill_area_Sector st s) = circle_fill_area (src_Sector_to_circle s) st.
 Proof. exact src_fill_area_sector_eq. Qed.
 
+(* the stroke / fill area of a sector keeps its angles (round 5) *)
+Theorem C06_src_sector_stroke_area_keeps_angles : forall st s, 0 <= Sector_diameter s <= u32_max -> 0 <= stroke_width st ->
+  Sector_angle_start (src_stroke_area_Sector st s) = Sector_angle_start s /\ Sector_angle_sweep (src_stroke_area_Sector st s) = Sector_angle_sweep s.
+Proof. exact src_stroke_area_sector_angles. Qed.
+Theorem C06_src_sector_fill_area_keeps_angles : forall st s, 0 <= Sector_diameter s <= u32_max -> 0 <= stroke_width st ->
+  Sector_angle_start (src_fill_area_Sector st s) = Sector_angle_start s /\ Sector_angle_sweep (src_fill_area_Sector st s) = Sector_angle_sweep s.
+Proof. exact src_fill_area_sector_angles. Qed.
+
 Example C06_src_sector_nonvacuous :
   src_Sector_to_circle (src_fill_area_Sector (Style.Style None (Some 1) 2 Style.Inside Style.Solid) (Build_Sector (P 0 0) 10 77 88)) = Circ (P 2 2) 6.
 Proof. vm_compute. reflexivity. Qed.
